@@ -393,3 +393,37 @@ func (o *Out) PreHistory(r *core.Run) bool {
 	r.Fault("sp_prehistory_then_reconfigured")
 	return true
 }
+
+// RotateFieldSigningStore: the key store object the application put into the (deprecated) field is one that
+// reloads its key pair (a renewed certificate from disk, a KMS, a secrets manager): from now on it hands out
+// another key and certificate. The SP asks a field store every time it needs the key, so whatever is signed
+// or reported afterwards uses the new pair. Returns false when the signing key does not come from such a store.
+func (o *Out) RotateFieldSigningStore(r *core.Run) bool {
+	sp := o.Node.SP
+	var store any = sp.SPSigningKeyStore
+	viaEnc := false
+	if o.SigStyle == world.KeyNone {
+		store, viaEnc = sp.SPKeyStore, true
+	}
+	if (o.SigStyle != world.KeyField && !(viaEnc && o.EncStyle == world.KeyField)) || world.Key(o.WantSignKey).RSA == nil {
+		return false
+	}
+	fks, ok := store.(*world.FieldKeyStore)
+	if !ok || fks == nil {
+		return false
+	}
+	nk := 4 + (o.WantSignKey+1)%4 // another RSA key (4..7)
+	if nk == o.WantSignKey {
+		nk = 4 + (nk+1)%4
+	}
+	nc := world.MintCert(nk, o.WantSignCert.X509.NotBefore, o.WantSignCert.X509.NotAfter, 21)
+	fks.Key, fks.Cert = world.Key(nk).RSA, nc.DER
+	o.WantSignKey, o.WantSignCert = nk, nc
+	if viaEnc {
+		o.EncKey, o.EncCert = nk, nc
+	} else {
+		o.SigKey, o.SigCert = nk, nc
+	}
+	r.Fault("field_key_store_rotated_its_key_pair")
+	return true
+}
